@@ -178,4 +178,112 @@ theorem execGetAndUpdate_eq (a b c : Val) (h : Spec.getAndUpdateV a b c ≠ .stu
       · simp [hc] at h2
   · simp [hc'] at hq
 
+/-! ### big maps created in the run: the same operations on the bindings -/
+theorem memB_notBig (x m : Val) (h : ∀ k v items, m ≠ .bigMap k v items) : Spec.memB x m = Spec.memV x m := by
+  cases m <;> first | rfl | exact absurd rfl (h _ _ _)
+
+theorem getB_notBig (x m : Val) (h : ∀ k v items, m ≠ .bigMap k v items) : Spec.getB x m = Spec.getV x m := by
+  cases m <;> first | rfl | exact absurd rfl (h _ _ _)
+
+theorem updateB_notBig (x o m : Val) (h : ∀ k v items, m ≠ .bigMap k v items) : Spec.updateB x o m = Spec.updateV x o m := by
+  cases m <;> first | (cases o <;> rfl) | exact absurd rfl (h _ _ _)
+
+theorem getAndUpdateB_notBig (x o m : Val) (h : ∀ k v items, m ≠ .bigMap k v items) :
+    Spec.getAndUpdateB x o m = Spec.getAndUpdateV x o m := by
+  unfold Spec.getAndUpdateB Spec.getAndUpdateV
+  rw [getB_notBig x m h, updateB_notBig x o m h]
+
+theorem execMemB_eq (a b : Val) (h : Spec.memB a b ≠ .stuck) : Impl.execMem a b = Spec.memB a b := by
+  by_cases hb : ∃ k v items, b = .bigMap k v items
+  · obtain ⟨k, v, items, rfl⟩ := hb
+    exact execMem_eq a (.map k v items) h
+  · have hn : ∀ k v items, b ≠ .bigMap k v items := fun k v items e => hb ⟨k, v, items, e⟩
+    rw [memB_notBig a b hn] at h ⊢
+    exact execMem_eq a b h
+
+theorem execGetB_eq (a b : Val) (h : Spec.getB a b ≠ .stuck) : Impl.execGet a b = Spec.getB a b := by
+  by_cases hb : ∃ k v items, b = .bigMap k v items
+  · obtain ⟨k, v, items, rfl⟩ := hb
+    exact execGet_eq a (.map k v items) h
+  · have hn : ∀ k v items, b ≠ .bigMap k v items := fun k v items e => hb ⟨k, v, items, e⟩
+    rw [getB_notBig a b hn] at h ⊢
+    exact execGet_eq a b h
+
+/-- `BigMapType.update` on a map created in the run -/
+theorem bigMapUpdate_eq {k v : Ty} {items : List Val} {x : Val} (hg : goodMap k items = true) (hx : isKey k x = true)
+    (val : Option Val) :
+    Impl.bigMapUpdate k v items x val = .ok (_root_.Spec.Coll.findKV keyLt x (Spec.kvs items),
+      .bigMap k v (Spec.unkvs (match val with
+        | some y => _root_.Spec.Coll.insertKV keyLt x y (Spec.kvs items)
+        | none => _root_.Spec.Coll.eraseKV keyLt x (Spec.kvs items)))) := by
+  obtain ⟨_, hp, hall, hs⟩ := goodMap_spec hg
+  have hgd := keyGuard hx
+  rw [Bool.and_eq_true] at hgd
+  simp only [Impl.bigMapUpdate, hgd.1, hp, hgd.2, Bool.and_self, if_true, map_update_eq hall hs hx val, kvs_eq, unkvs_eq]
+  cases val <;> rfl
+
+theorem execUpdateB_eq (a b c : Val) (h : Spec.updateB a b c ≠ .stuck) : Impl.execUpdate a b c = Spec.updateB a b c := by
+  by_cases hb : ∃ k v items, c = .bigMap k v items
+  · obtain ⟨k, v, items, rfl⟩ := hb
+    cases b <;> first | (exact absurd rfl h) | skip
+    · rename_i y
+      simp only [Spec.updateB] at h ⊢
+      by_cases hc : (goodMap k items && isKey k a && typeOf y == v) = true
+      · simp only [hc, if_true]
+        simp only [Bool.and_eq_true] at hc
+        simp only [Impl.execUpdate, bigMapUpdate_eq hc.1.1 hc.1.2 (some y), rbind_ok']
+      · simp [hc] at h
+    · rename_i v'
+      simp only [Spec.updateB] at h ⊢
+      by_cases hc : (goodMap k items && isKey k a && v' == v) = true
+      · simp only [hc, if_true]
+        simp only [Bool.and_eq_true] at hc
+        simp only [Impl.execUpdate, bigMapUpdate_eq hc.1.1 hc.1.2 none, rbind_ok']
+      · simp [hc] at h
+  · have hn : ∀ k v items, c ≠ .bigMap k v items := fun k v items e => hb ⟨k, v, items, e⟩
+    rw [updateB_notBig a b c hn] at h ⊢
+    exact execUpdate_eq a b c h
+
+theorem getB_ok_or_stuck (x m : Val) : Spec.getB x m = .stuck ∨ ∃ r, Spec.getB x m = .ok r := by
+  by_cases hb : ∃ k v items, m = .bigMap k v items
+  · obtain ⟨k, v, items, rfl⟩ := hb
+    exact getV_ok_or_stuck x (.map k v items)
+  · rw [getB_notBig x m (fun k v items e => hb ⟨k, v, items, e⟩)]
+    exact getV_ok_or_stuck x m
+
+theorem execGetAndUpdateB_eq (a b c : Val) (h : Spec.getAndUpdateB a b c ≠ .stuck) :
+    Impl.execGetAndUpdate a b c = Spec.getAndUpdateB a b c := by
+  by_cases hb : ∃ k v items, c = .bigMap k v items
+  · obtain ⟨k, v, items, rfl⟩ := hb
+    unfold Spec.getAndUpdateB at h ⊢
+    have h1 := bind_ne_stuck'' h
+    rcases getB_ok_or_stuck a (.bigMap k v items) with hq | ⟨old, hq⟩
+    · exact absurd hq h1
+    simp only [hq, rbind_ok'] at h ⊢
+    have h2 := bind_ne_stuck'' h
+    simp only [Spec.getB] at hq
+    by_cases hc' : (goodMap k items && isKey k a) = true
+    · simp only [hc', if_true, Res.ok.injEq] at hq
+      subst hq
+      rw [Bool.and_eq_true] at hc'
+      cases b <;> first | (exact absurd rfl h2) | skip
+      · rename_i y
+        simp only [Spec.updateB] at h2 ⊢
+        by_cases hc : (goodMap k items && isKey k a && typeOf y == v) = true
+        · simp only [hc, if_true, rbind_ok']
+          simp only [Impl.execGetAndUpdate, bigMapUpdate_eq hc'.1 hc'.2 (some y), rbind_ok']
+          cases _root_.Spec.Coll.findKV keyLt a (Spec.kvs items) <;> rfl
+        · simp [hc] at h2
+      · rename_i v'
+        simp only [Spec.updateB] at h2 ⊢
+        by_cases hc : (goodMap k items && isKey k a && v' == v) = true
+        · simp only [hc, if_true, rbind_ok']
+          simp only [Impl.execGetAndUpdate, bigMapUpdate_eq hc'.1 hc'.2 none, rbind_ok']
+          cases _root_.Spec.Coll.findKV keyLt a (Spec.kvs items) <;> rfl
+        · simp [hc] at h2
+    · simp [hc'] at hq
+  · have hn : ∀ k v items, c ≠ .bigMap k v items := fun k v items e => hb ⟨k, v, items, e⟩
+    rw [getAndUpdateB_notBig a b c hn] at h ⊢
+    exact execGetAndUpdate_eq a b c h
+
 end Interp
